@@ -451,6 +451,8 @@ def binop(I, node, op, l, r):
                 elif k > 1:
                     out.tags["dim"] = (f"#{k}",)
                 out.const = k if (l.known and r.known) else U
+        if isinstance(op, ast.Pow) and l.known and l.const == 2 and (dr is not None or r.tag("kind") == "int"):
+            out.tags["pow2_of"] = r                 # 2 ** n: the number of corners of an n-cube
         # sizes feed stacking only: they are SHAPE origins
         out.shp = out.shp | out.data
         out.data = E
@@ -461,6 +463,29 @@ def binop(I, node, op, l, r):
                 out.tags["isnum"] = True
         return out
     # arrays
+    if isinstance(op, ast.RShift) and l.tag("pow2_range") is not None and r.tag("desc_range") is not None:
+        # (arange(2**n)[:, None] >> arange(n-1, -1, -1)[None, :]): row r holds the binary digits of r — every 0/1 combination once
+        out.shape = broadcast_shapes(I, node, [l, r], report=False)
+        out.unit = ONE
+        out.tags.update(kind="ndarray", bit_table=(l.tag("pow2_range"), r.tag("desc_range")))
+        out.shp = out.shp | out.data
+        out.data = E
+        return out
+    if isinstance(op, ast.BitAnd) and l.tag("bit_table") is not None and r.known and r.const == 1:
+        n_rows, n_cols = l.tag("bit_table")
+        out.shape = l.shape
+        out.unit = ONE
+        out.sign = "NONNEG"
+        out.shp = out.shp | out.data
+        out.data = E
+        same = as_dim(n_rows) is not None and as_dim(n_rows) == as_dim(n_cols)
+        out.tags.update(kind="ndarray", ndim=2)
+        if same:
+            out.tags["poly"] = {("corner",): 1}
+            out.tags["corner_array"] = True
+            out.tags["deg"] = {}
+        I.emit("corner_table", node, result=out, lits=(0.0, 1.0), repeat=n_cols, complete=bool(same))
+        return out
     if isinstance(op, ast.MatMult):
         out.shape = matmul_shape(I, node, l, r)
         for x, basis in ((l, r), (r, l)):
@@ -734,10 +759,16 @@ def norm_text_safe(node):
 
 # ------------------------------------------------------------------ subscript
 def _index_elems(node):
+    """index elements with `np.newaxis` normalised to the literal None it is"""
     sl = node.slice
-    if isinstance(sl, ast.Tuple):
-        return list(sl.elts)
-    return [sl]
+    els = list(sl.elts) if isinstance(sl, ast.Tuple) else [sl]
+    out = []
+    for x in els:
+        if isinstance(x, ast.Attribute) and x.attr == "newaxis" and isinstance(x.value, ast.Name) and x.value.id in ("np", "numpy"):
+            out.append(ast.copy_location(ast.Constant(value=None), x))
+        else:
+            out.append(x)
+    return out
 
 
 def subscript(I, e, b):
@@ -793,7 +824,7 @@ def subscript(I, e, b):
         if idx.tag("hull_attr") == "simplices":
             out.tags["simplices_of"] = b
     for k in ("deg", "litfactor", "kind", "bary", "simplex_rows", "offset_id", "hull_pts", "rowsof", "maybe_zero_rows", "unit_cube",
-              "simplices_of", "poly", "floating", "suffix_slice", "point", "rounded"):
+              "simplices_of", "poly", "floating", "suffix_slice", "point", "rounded", "pow2_range", "desc_range"):
         if b.tag(k) is not None:
             out.tags[k] = b.tag(k)
     if b.tag("truncated_basis") or (b.tag("basis_factor") and any(isinstance(x, ast.Slice) and (x.upper is not None or x.lower is not None)
@@ -817,7 +848,7 @@ def subscript(I, e, b):
     el0 = elems[0] if elems else None
     if isinstance(el0, ast.Slice) and el0.upper is None and el0.lower is not None and (
             isinstance(el0.lower, ast.UnaryOp) and isinstance(el0.lower.op, ast.USub)):
-        out.tags["suffix_slice"] = True
+        out.tags["suffix_slice"] = (b.shape.axes[0] if (b.shape is not None and not b.shape.ell and b.shape.axes) else None) or "?"
     if b.tag("corner_cloud"):
         if isinstance(el0, ast.Slice) and (el0.lower is not None or el0.upper is not None):
             out.tags["corner_cloud"] = True
@@ -1211,6 +1242,10 @@ def call_builtin(I, e, name, args, kws):
             out.unit = us[0] if all(u == us[0] for u in us) else None
             if all(a.known and _is_lit(a) for a in args):
                 out.const = (min if name == "min" else max)(a.const for a in args)
+            if all(a.tag("kind") == "int" or (a.known and isinstance(a.const, int)) for a in args):
+                out.tags["kind"] = "int"             # sizes: structural, not data
+                out.shp = out.shp | out.data
+                out.data = E
             sg = [eff_sign(a) for a in args]
             if all(x_ == "POS" for x_ in sg) or (name == "max" and "POS" in sg):
                 out.sign = "POS"
@@ -1407,5 +1442,20 @@ def call_extern(I, e, dotted, args, kws, method=False):
                                *[("kw", k, v.term) for k, v in sorted(kws.items()) if k != "**"][:4])
     if out.tag("kind") in ("combinations", "product") and "created_loops" not in out.tags:
         out.tags["created_loops"] = tuple(I.fr.loops)
+    # ufunc(..., out=x): the result is written into x (an in-place update of that array)
+    if "out" in kws and isinstance(e, ast.Call) and dotted.startswith("numpy."):
+        knode = next((k.value for k in e.keywords if k.arg == "out"), None)
+        tgt = kws["out"]
+        if knode is not None and not (tgt.known and tgt.const is None):
+            I.emit("inplace", e, target=tgt, value=out, how="out=", tnode=knode)
+            res = out.copy(fresh=tgt.fresh)
+            if isinstance(knode, ast.Name):
+                I.fr.env[knode.id] = res
+                if knode.id in I.fr.param_live and tgt.tag("kind") != "int":
+                    I.fr.param_mutated.add(knode.id)
+            elif isinstance(knode, ast.Attribute) and isinstance(knode.value, ast.Name) and knode.value.id == "self":
+                I.ctx.selfenv[knode.attr] = res
+                I.emit("self_store", e, attr=knode.attr, val=res, how="item")
+            out = res
     ev.d["result"] = out
     return out
